@@ -190,8 +190,12 @@ func (e *Eval) builtin(fr *frame, x *ssa.Call, name string, args []AV, st State)
 					e.setContent(fr, st, d.WinOf, topContent(d.WinOf, "copy into a sub-slice"))
 				}
 			}
+			if d.Obj == nil && d.WinOf == nil && d.Param == nil {
+				e.clobber(fr, st, "copy into a slice that is not resolved", okBuf, okCell)
+			}
 		} else {
 			e.escape(fr, st, args[0], "copy destination")
+			e.clobber(fr, st, "copy into a slice that is not resolved", okBuf, okCell)
 		}
 		return RangeInt(0, 1<<31)
 	case "append":
@@ -502,6 +506,9 @@ func (e *Eval) model(fr *frame, x *ssa.Call, callee *ssa.Function, args []AV, st
 			e.setContent(fr, st, b.Obj, BufC{n})
 		} else {
 			e.escape(fr, st, args[1], name)
+			if b, ok := args[1].(BytesV); !ok || (b.WinOf == nil && b.Param == nil) {
+				e.clobber(fr, st, name+" into a slice that is not resolved", okBuf, okCell)
+			}
 		}
 		e.Reads = append(e.Reads, info)
 		// what the current path knows about this call's error: nothing yet (present on every
@@ -606,7 +613,10 @@ func (e *Eval) bigMethod(fr *frame, x *ssa.Call, m string, args []AV, st State) 
 		}
 		if p, ok := z.(PtrV); ok && p.G != nil {
 			e.event("E1", Violated, x, "math/big method %s writes package-level variable %s", m, p.G.Name())
+			return z
 		}
+		// the receiver is not a pointer the analysis resolved: any tracked big.Int may be the target
+		e.clobber(fr, st, "big.Int written through an unresolved pointer", okBig)
 		return z
 	}
 	get := func(i int) BigC {
@@ -818,6 +828,9 @@ func (e *Eval) bigMethod(fr *frame, x *ssa.Call, m string, args []AV, st State) 
 		}
 		if b.WinOf != nil {
 			e.setContent(fr, st, b.WinOf, topContent(b.WinOf, "FillBytes into a sub-slice"))
+		}
+		if b.Obj == nil && b.WinOf == nil && b.Param == nil {
+			e.clobber(fr, st, "FillBytes into a slice that is not resolved", okBuf, okCell)
 		}
 		return args[1]
 	case "BitLen", "Sign", "IsInt64", "IsUint64", "Bit", "TrailingZeroBits", "ProbablyPrime":
